@@ -92,6 +92,17 @@ CHECKS["C19"] = ("model_checking",
    "The driver records every EncodingIndicator label returned by feed(); independently the monitored sink records every HTML-namespace meta element at the moment it is inserted and computes the expected label from its attributes (charset value, else http-equiv ~ content-type plus R-meta(content), a transliteration of the WHATWG extraction algorithm). The two sequences must be equal, the meta element must already be attached when feed returns, and the final tree must equal the tree of the same input with the triggering attribute names altered (resuming changes nothing). Jobs: 9 meta variants after each of 46 insertion-mode witnesses and each of 168 tree lexemes (document, scripting on/off, followers) and in 35 fragment contexts under every chunking with <=2 (3) cuts; plus all content strings of <=6 (7) lexemes over {charset, CHARSET, chars, SP, TAB, =, quote, apostrophe, ;, x, e-acute} (1.9e6 / 2.1e7 documents).",
    "'Returns a label' is read as 'the extraction algorithm returns a substring' (html5ever delegates the registry lookup to the embedder). Alphabet-bounded.",
    "DESIGN.md §3 C19", "E2 + E4")
+XNOTE = "Generator: element names {a, p:a, q:a, script}; declaration subsets (<=2, 3 thorough) of {xmlns=u1, xmlns='', xmlns:p=u1|u2|'', xmlns:q=u1, xmlns:xml=<xml uri>|u9}; attribute subsets (<=3) of {x, p:x, q:x, xml:lang, z:x, p:xmlns, u:y}; every order of the items of a tag (up to 4/5 items); tag forms start..end, empty, short end tag </>, closed by the parent's end tag, unclosed at EOF; two- and three-level nestings with re-declaration / un-declaration; probe elements using every prefix inside and after the element under test (3.6e5 documents quick, 4e6 thorough)."
+CHECKS["C16"] = ("exploration",
+   "exhaustive generation of namespace shapes parsed by xml5ever into the monitored sink, compared with a lexical-scope resolver (R-ns)",
+   "Every generated document is parsed; every element and attribute in the model DOM must carry the namespace R-ns computes by lexical scoping over the generated abstract tree (nearest declaration incl. the element's own tag; default namespace for elements only; xml/xmlns fixed; empty value un-binds; unbound prefix -> no namespace); declarations must be invisible to siblings and following content (probes); built attributes must be an in-order subsequence of the source attributes and one may be missing only if an earlier attribute of the same tag has the same expanded name. The TreeSink contract monitor (C05) is active on every xml run.",
+   XNOTE + " xmlns declarations are not attributes for the no-loss clause. The wrapper element closed 'by the parent's end tag' is prefixed so that its end tag names the same element in every inner scope (xml5ever matches end tags by expanded name).",
+   "DESIGN.md §3 C16", "xml")
+CHECKS["C17"] = ("exploration",
+   "exhaustive generation of namespace shapes and value strings through parse -> xml5ever::serialize -> parse",
+   "For every document of the C16 generator and for text / attribute values ranging over all strings of length <=2 (3 thorough) over {&amp; &lt; > quote apostrophe a SP LF &#13; e-acute ]]> TAB &#9; &#10; &#133;}, comments and PIs over 10 strings: the RcDom produced by the first parse is serialized and parsed again; the two model-DOM trees must be equal in element and attribute local names, prefixes, namespace URIs, attribute values, text, comments and PIs (doctype ids excluded).",
+   XNOTE + " No model: the first parse is the specification of the second.",
+   "DESIGN.md §3 C17", "xml")
 PENDING = {}
 def main():
     checks = []
